@@ -10,6 +10,7 @@ import (
 	"go/token"
 	"go/types"
 	"math"
+	"os"
 	"strings"
 
 	"golang.org/x/tools/go/ssa"
@@ -272,6 +273,12 @@ func guardRows(w *World, r *Report, prop string) {
 					e.assumeReject = false
 				}
 				e.undecidedOnSubject = tests
+				if wit := ""; rejects {
+					if wit = e.regionWitness(f, sc); wit != "" {
+						r.add("GUARD", key, pos, Violated, fmt.Sprintf("scenario {%s}: %s -- %s", sc, wit, row.Doc))
+						break
+					}
+				}
 				if rejects {
 					// a test of the argument lies on the way that the oracle cannot evaluate:
 					// the exclusion may be enforced in a form the analysis does not interpret
@@ -762,6 +769,9 @@ func (e *scEngine) checkTwoPass(f *ssa.Function, sc scenario) (Status, string) {
 	e.assumeReject = false
 	e.undecidedOnSubject = nil
 	if rejects {
+		if wit := e.regionWitness(f, sc); wit != "" {
+			return Violated, wit
+		}
 		return Undecided, why + ", but only past test(s) of the argument the analysis could not evaluate (" + abbrev(strings.Join(tests, "; "), 240) + ")"
 	}
 	return Violated, why
@@ -1038,4 +1048,59 @@ func errEdgeCanFail(f *ssa.Function, e *scEngine, ev ssa.Value) bool {
 		}
 	}
 	return false
+}
+
+// regionWitness: a region is rejected only if EVERY value in it is; a single
+// value of the region that passes every test of the argument (all of them
+// evaluated, none assumed) is a counter-example.  The finite ends of the
+// region are tried, the other integer arguments taking ordinary valid values of
+// their kind.  Returns the description of the counter-example, or "".
+func (e *scEngine) regionWitness(f *ssa.Function, sc scenario) string {
+	if sc.Kind == scRegion && !sc.Elem && !sc.Fields && sc.Acc == nil {
+		for _, wv := range []float64{sc.Hi, sc.Lo} {
+			if math.IsInf(wv, 0) || sc.Lo == sc.Hi {
+				continue
+			}
+			pt := sc
+			pt.Lo, pt.Hi = wv, wv
+			// the other integer arguments take ordinary valid values of their kind (a zoom of
+			// 10, base exponent 25, offset 0): the witness is one concrete call
+			samples := ""
+			ke := kindsFor(e.w)
+			for i, p := range f.Params {
+				if i == sc.Param || !isIntType(p.Type()) {
+					continue
+				}
+				role := ke.paramRole(f, i)
+				if role == nil {
+					continue
+				}
+				switch {
+				case role.Scalar != 0 && role.Scalar&^ks(kHZ, kVZ, kZ, kTVZ) == 0:
+					pt.Consts += fmt.Sprintf("%d=#10,", i)
+					samples += fmt.Sprintf(", %s=10", p.Name())
+				case role.Scalar == ks(kZBASE):
+					pt.Consts += fmt.Sprintf("%d=#25,", i)
+					samples += fmt.Sprintf(", %s=25", p.Name())
+				case role.Scalar == ks(kZOFF):
+					pt.Consts += fmt.Sprintf("%d=#0,", i)
+					samples += fmt.Sprintf(", %s=0", p.Name())
+				}
+			}
+			e.undecidedOnSubject = nil
+			ok2, why2 := e.check(f, pt, 0)
+			open := len(e.undecidedOnSubject)
+			if os.Getenv("SID_DEBUG_WIT") != "" {
+				fmt.Fprintf(os.Stderr, "  open tests: %v\n", e.undecidedOnSubject)
+			}
+			e.undecidedOnSubject = nil
+			if os.Getenv("SID_DEBUG_WIT") != "" {
+				fmt.Fprintf(os.Stderr, "WITNESS %s %v consts=%q ok=%v open=%d why=%s\n", f.Name(), wv, pt.Consts, ok2, open, why2)
+			}
+			if !ok2 && open == 0 {
+				return fmt.Sprintf("for the value %v of the argument%s every test of it is evaluated and %s", wv, samples, why2)
+			}
+		}
+	}
+	return ""
 }
